@@ -257,7 +257,23 @@ ADDENDA3 = {   # round 9
     "C18": "the clamped last step of every integrate() call is taken exactly when |dt| > |tf - t|, so it never exceeds the clipped dt.",
     "C20": "every integrator makes its first attempt with exactly the step it was given (a callback's dt is not clamped or damped before it is tried).",
 }
-for _add in (ADDENDA2, ADDENDA3):
+ADDENDA4 = {   # round 10
+    "C01": "the splitting step is the stated composition on every path (data-dependent branches explored: no sub-step takes its slope from another call).",
+    "C02": "stage formulas are decided by interpretation over tensors with concrete stage axes and abstract state axes (E-EIN): another way of writing the same stage formula is accepted, permuted state axes or a sum over the wrong axis are reported with the reason.",
+    "C03": "every `counter += 1` commits rows written in this iteration (flow analysis with an allocator summary: a re-allocation keeps the fact only if it carries over every row).",
+    "C04": "the dt setter stores the value it is given (no bounding by the constructed span).",
+    "C05": "the scale multiplying rtol is computed from the current step only (no running average kept between steps).",
+    "C07": "handle_events receives the events and self.constants read at the call (re-judged).",
+    "C09": "the stop flag of a terminal event is rebound only by the handler's result (re-judged).",
+    "C11": "nonlinear_roots never hands the integrator's explicit predictor back as a converged root.",
+    "C12": "a setting of the integrator / rhs wrapper / dense output changed inside integrate() is restored by a finally clause.",
+    "C14": "the stopping tests of the scalar and the vector solver are the same boolean function (truth table).",
+    "C17": "every intermediate of the Hermite value / gradient has a degree between -1 and +1 in the unit of time (no power of a time difference formed on its own).",
+    "C18": "the states returned for t_eval are recorded samples, never values read off the dense output.",
+    "C19": "a dedicated __iter__ / __reversed__ / __contains__ reads the trimmed views only.",
+    "C20": "solve_ivp stores the system's dt nowhere but in its clipping callback.",
+}
+for _add in (ADDENDA2, ADDENDA3, ADDENDA4):
     for _k, _v in _add.items():
         ADDENDA[_k] = (ADDENDA[_k] + " " + _v[0].upper() + _v[1:]) if _k in ADDENDA else "Also decided: " + _v
 for _k, _v in ADDENDA.items():
